@@ -265,6 +265,22 @@ def only_arg_leaves(t, is_arg):
     return False
 
 
+def pins_exdev(c2, pol2):
+    """The (unwrapped) condition holds exactly when errno is EXDEV: errno == EXDEV, or
+    errno in (EXDEV,) -- not a longer list of errno values."""
+    if not isinstance(c2, Cmp):
+        return False
+    if not contains(c2, lambda x: isinstance(x, ExtRef) and x.qualname == 'errno.EXDEV'):
+        return False
+    if not ((c2.op in ('==', 'in') and pol2) or (c2.op in ('!=', 'not in') and not pol2)):
+        return False
+    others = [x for side in (c2.left, c2.right) for x in walk(side)
+              if (isinstance(x, ExtRef) and x.qualname.startswith('errno.') and
+                  x.qualname != 'errno.EXDEV') or
+              (isinstance(x, Const) and isinstance(x.value, int))]
+    return not others
+
+
 def failure_atomic(b, m):
     g = b.g
     prim = m.data['prim']
@@ -282,10 +298,8 @@ def failure_atomic(b, m):
             if not g.dominates(h, n.id):
                 continue
             c2, pol2 = unwrap_not(c, pol)
-            if isinstance(c2, Cmp) and contains(c2, lambda x: isinstance(x, ExtRef) and
-                                                x.qualname == 'errno.EXDEV'):
-                if (c2.op in ('==', 'in') and pol2) or (c2.op in ('!=', 'not in') and not pol2):
-                    exdev = True
+            if pins_exdev(c2, pol2):
+                exdev = True
         if from_rename and exdev:
             return True, ''
     # the same, when the verdict "EXDEV" is handed back by a helper and tested by the
@@ -294,10 +308,7 @@ def failure_atomic(b, m):
     exdev_nodes = []
     for n in b.nodes('assume'):
         c2, pol2 = unwrap_not(n.data['cond'], n.data['pol'])
-        if not (isinstance(c2, Cmp) and contains(c2, lambda x: isinstance(x, ExtRef) and
-                                                 x.qualname == 'errno.EXDEV')):
-            continue
-        if not ((c2.op in ('==', 'in') and pol2) or (c2.op in ('!=', 'not in') and not pol2)):
+        if not pins_exdev(c2, pol2):
             continue
         hh = last_dominating(b, n.id, 'handler')
         if hh is None:
